@@ -199,7 +199,7 @@ func runRPipe(c *rpipeCase) string {
 		// give the goroutines the time to finish (or to show that they never will) before the
 		// trace is cut
 		leak := "ok"
-		deadline := time.Now().Add(500 * time.Millisecond)
+		deadline := time.Now().Add(5 * time.Second) // a goroutine that is still winding down is not a leak: only one that never ends is
 		for runtime.NumGoroutine() > g0 && time.Now().Before(deadline) {
 			time.Sleep(2 * time.Millisecond)
 		}
